@@ -421,7 +421,7 @@ def run_case(case, ctx):
                 small = _shrink(prog, pdf, part, case["ord"], case["idx"], stage, symptom)
             except Exception:  # noqa: BLE001
                 small = prog
-            label = "%s:%s:%s" % (stage, "+".join(P.features(small, shared=False)) or "none", symptom)
+            label = _label(stage, symptom, message, small)
         detail = {"program": P.text(prog), "shrunk_program": P.text(small), "partitioning": part, "rows": len(pdf),
                   "index": case["index"], "frame_seed": case["fseed"]}
         if exc is not None:
@@ -429,3 +429,22 @@ def run_case(case, ctx):
 
             detail["traceback"] = "".join(traceback.format_exception(type(exc), exc, exc.__traceback__))[-2500:]
         ctx.violation(label, "%s at stage %s: %s" % (symptom, stage, message), **detail)
+
+
+def _label(stage, symptom, message, small):
+    """Mechanism label.  Known mechanisms are recognised by what the symptom itself says (sound: each rule's text
+    explains why the symptom can only arise that way); everything else is named by the coarse op kinds of the
+    shrunk program."""
+    from vf.gen import c43_programs as P
+
+    if symptom.startswith("AttributeError@") and ("has no attribute 'head'" in message or "has no attribute 'tail'" in message):
+        # .head/.tail was called on a scalar: Head/Tail pushed into the scalar (reduction) operand of an elementwise op
+        return "%s:head-or-tail-pushed-into-scalar-operand-of-elemwise:%s" % (stage, symptom)
+    if symptom == "IndexError@dataframe/dask_expr/_concat.py:_meta":
+        # Concat left without any frame: a projection that selects none of the frames' columns (only assigned ones)
+        return "%s:concat-projected-to-zero-columns:%s" % (stage, symptom)
+    if symptom.startswith("KeyError@dataframe/dask_expr/_reductions.py:_nfirst") or \
+            symptom.startswith("KeyError@dataframe/dask_expr/_reductions.py:_nlast"):
+        # sort_values(k).head/tail(n) became NFirst/NLast and a later projection without k was pushed below it
+        return "%s:projection-without-sort-key-pushed-below-sort-head:%s" % (stage, symptom)
+    return "%s:%s:%s" % (stage, "+".join(P.label_features(small)) or "none", symptom)
